@@ -48,6 +48,10 @@ for tu, tudef in (("tcp", []), ("tls", ["-DTU_TLS"])):
            tier="thorough", unwind=16, unwindset=["try_finish_send.0:5"], timeout=2400,
            desc=(FRAME_DESC[op] % tu) + "; LENGTH tier: every payload length 0..65535 (and beyond), positions/lengths/counters exact, copies of more than 8 bytes move no content (ranges still bounds-checked)")
 
+for tu, tudef in (("tcp", []), ("tls", ["-DTU_TLS"])):
+    ob("frame.%s.misc" % tu, "frame/misc.c", tudef, ["C10", "C11", "C12", "C17"], unwind=12, unwindset=["strcmp.0:8", "strcpy.0:8", "strlen.0:8"],
+       desc="%s_get_remote_addr/get_local_addr/set_local_addr/max_msg/get_cnt/attr_populate over a sub-socket that reports an address or none: no crash, the sub-socket's address in this transport's spelling, xcm.local_addr converted and handed down exactly once with the sub-socket's verdict, every counter attribute reports its own counter" % tu)
+
 _frame_assumptions = [
     "BYTESTREAM contract of the lower socket (btcp/btls): send(len>0) accepts 1..len leading bytes or fails with EAGAIN or a hard errno; receive(cap>0) delivers 1..cap next stream bytes, 0 (EOF) or -1; after a hard error no further call succeeds",
     "content tier: payloads <= LMAX bytes with symbolic bytes; legal announced lengths LMAX+1..65535 are covered for positions/lengths only by the length tier",
